@@ -1013,8 +1013,14 @@ class TorConfig:
         # way to put things into a config and get them out again
         # nicely...unless you just don't assign a protocol
         if self.protocol:
+            # remember what is being sent, so that edits made while the
+            # SETCONF is in flight are still pending afterwards
+            sent = dict(
+                (k, (v, list(v) if isinstance(v, list) else None))
+                for (k, v) in self.unsaved.items()
+            )
             d = self.protocol.set_conf(*args)
-            d.addCallback(self._save_completed)
+            d.addCallback(self._save_completed, sent)
             return d
 
         else:
@@ -1023,7 +1029,16 @@ class TorConfig:
 
     def _save_completed(self, *args):
         '''internal callback'''
-        self.__dict__['unsaved'] = {}
+        sent = args[1] if len(args) > 1 else None
+        if sent is None:
+            self.__dict__['unsaved'] = {}
+            return self
+        # forget only what was sent and has not been edited since
+        unsaved = self.__dict__['unsaved']
+        for (k, (v, snapshot)) in sent.items():
+            if k in unsaved and unsaved[k] is v and \
+               (snapshot is None or list(v) == snapshot):
+                del unsaved[k]
         return self
 
     def _find_real_name(self, name):
